@@ -260,8 +260,12 @@ func (r *Run) ConfirmViolations(mk func(cfg any) Spec) {
 		if len(seen) > 8 {
 			break
 		}
+		sp := mk(v.Config)
+		if sp == nil {
+			continue // violation found by another engine of the same check (confirmed there)
+		}
 		for k := 0; k < 2; k++ {
-			last, _, _ := Replay(mk(v.Config), v.Path)
+			last, _, _ := Replay(sp, v.Path)
 			found := false
 			for _, lv := range last.Violations {
 				if lv.Fingerprint == v.Fingerprint {
